@@ -433,10 +433,11 @@ func checkB(c CaseB) error {
 		return err
 	}
 	body := c.body()
-	fsys, err := buildFS(c.files(), c.Store, keysB)
+	fsys, cleanup, err := buildFS(c.files(), c.Store, keysB)
 	if err != nil {
 		return err
 	}
+	defer cleanup()
 	m := &modelB{cfg: map[string]string{}}
 	for _, k := range keysB {
 		if c.NoCfg {
@@ -921,7 +922,7 @@ func classifyB(c CaseB) (bool, []string) {
 			cls["with-non-mapping-config-files"] = true
 		}
 		if c.Store != "" {
-			cls["store=overlay/"+c.Store] = true
+			cls["store="+c.Store] = true
 		} else {
 			cls["store=single-fs"] = true
 		}
